@@ -18,6 +18,7 @@ PROGRAMS = [
     "-print", "-print0", "-printf '%p\\n'", "-printf 'x'", "-print -printf '%s %p\\n'", "-print , -print0", "-fprint A , -print0",
     "-fprint A , -fprint0 A , -printf 'x'", "-fprint A , -fprint B , -print", "-name a -print -o -name b -print",
     "-print , -printf '%U\\n' , -printf '%G\\n'", "-print0 , -printf 'y' , -fprintf A 'z'", "-print , -print-file-fid",
+    "-printf '%p\\n%s'", "-print , -printf 'a\\nb'", "-printf '%p\\n%s\\n'",
 ]
 
 
@@ -34,6 +35,15 @@ def action_steps(B, text):
     M, tv, data = run_program(items, FileRec("c16"))
     calls = []
     ev = M.events
+    plain = iomap_of(ces[0]) is None
+    unterminated = []
+    for e in ev:
+        if plain and e["kind"] == "record":
+            term = e["extra"]
+            last = e["payload"][-1] if e["payload"] else None
+            if not (term == 10 or (term is None and last == 10)):
+                unterminated.append((term, last))
+    action_steps.unterminated = unterminated
     i = 0
     while i < len(ev):
         e = ev[i]
@@ -159,6 +169,13 @@ def run(ctx, rep, tier):
             continue
         if not calls:
             continue
+        if action_steps.unterminated:
+            d = B.ctx.run_native([text], "debug")[0]
+            if d.get("iomap", "none") == "none" and "make-printer" in d.get("scheme", "") and " #f)" in d.get("scheme", ""):
+                rep.violation("unterminated-line", "%r is compiled in plain mode with a printer that appends no terminator although its records do not end "
+                              "in a newline: the stream does not split into complete terminated lines" % text, dict(input=text))
+            else:
+                rep.inconclusive.append("unterminated plain-mode record for %r does not reproduce natively" % text)
         if lock_order_cycle(calls):
             rep.violation("deadlock", "%r: printers take mutexes in conflicting orders" % text, dict(input=text))
         for T_, c_ in shapes:
